@@ -250,6 +250,33 @@ def run_case(case):
                                             and numpy.array_equal(ref.transform(P), m2.transform(P)))
                                     if not same:
                                         bad("L2 differs from sklearn KMeans", "init=%s" % iname, desc)
+    # L2 with the remaining forms of init / n_init scikit-learn accepts: n_init='auto' and a callable init
+    if distinct >= 2:
+        Xa = numpy.array(pts, dtype=numpy.float64)
+
+        def init_callable(X_, k_, random_state):
+            idx = random_state.permutation(X_.shape[0])[:k_]
+            return X_[idx] + 0.01 * numpy.arange(k_)[:, None]
+        dpa = sorted(set(map(tuple, Xa.tolist())))
+        for k in range(1, min(distinct, 3) + 1):
+            for iname, init in (("k-means++", "k-means++"), ("random", "random"), ("callable", init_callable), ("array", numpy.array(dpa[:k]))):
+                for n_init in ("auto", 3):
+                    for rs in case["seeds"][:3]:
+                        cnt += 1
+                        desc = "X=%r k=%d init=%s n_init=%r random_state=%d" % (pts, k, iname, n_init, rs)
+                        try:
+                            ref = KMeans(n_clusters=k, init=init, random_state=rs, n_init=n_init).fit(Xa)
+                        except Exception:
+                            continue
+                        try:
+                            m2 = KMeansL1L2(n_clusters=k, init=init, random_state=rs, n_init=n_init, norm="L2").fit(Xa)
+                        except Exception as e:
+                            bad("L2 fit raises %s" % type(e).__name__, "init=%s,n_init=%s" % (iname, n_init), "%s %s" % (e, desc))
+                            continue
+                        if not (numpy.array_equal(ref.labels_, m2.labels_) and numpy.array_equal(ref.cluster_centers_, m2.cluster_centers_)
+                                and ref.inertia_ == m2.inertia_ and numpy.array_equal(ref.predict(probes_base), m2.predict(probes_base))
+                                and numpy.array_equal(ref.transform(probes_base), m2.transform(probes_base))):
+                            bad("L2 differs from sklearn KMeans", "init=%s,n_init=%s" % (iname, n_init), desc)
     # history: one instance fitted on X, queried, then fitted on a shifted and stretched copy; both norms
     if distinct >= 2:
         X1 = numpy.array(pts, dtype=numpy.float64)
